@@ -65,6 +65,10 @@ CHECKS = {
          "Exploration: Lasso and elastic net objective values within 10*tol (relative) of the coordinate-descent optimum for alpha from almost-least-squares to beyond alpha_max, l1_ratio in (0,1], large target means, both normalisations; intercept identity; predict = X w + b; shifting every target moves only the intercept; invalid Lasso settings (alpha<0, tol<=0, max_iter=0, n<=p, length mismatch, constant column) return Err and do not panic or hang (watchdog).",
          "Reference optimum by cyclic coordinate descent in harness/src/props/c08.rs; a hang is reported as inconclusive (exit 2), never as a violation.",
          "DESIGN.md section 7 C08"),
+ "C09": ("property-based testing (proptest): independent log-sum-exp objective and gradient in f64; L-BFGS driven through a cfg re-export on generated SPD quadratics, monotonicity observed by re-running the deterministic optimiser with max_iter = 1..20",
+         "Exploration: gradient of the penalised negative log-likelihood at the fitted coefficients relative to the gradient at zero (alpha > 0), final objective <= starting objective (alpha >= 0), predicted labels = arg-max / sign of the fitted linear scores and members of the label set; L-BFGS on strictly convex quadratics (dimension 1..12, cond <= 1e4): gradient reduction, reported value, no increase of the objective along the iterates.",
+         "Needs hook H1 (re-export of LBFGS / Backtracking). One known finding (iteration budget on badly scaled features) is keyed on a replica run of the same optimiser.",
+         "DESIGN.md section 7 C09"),
 }
 ALL = ["C%02d" % i for i in range(1, 21)]
 NA_REASON = {}
